@@ -851,7 +851,7 @@ class Process(StateMachine, persistence.Savable, metaclass=ProcessStateMachineMe
     def on_playing(self) -> None:
         """The process was played."""
         # Done being paused
-        if self._paused is not None:
+        if self._paused is not None and not self._paused.done():
             self._paused.set_result(True)
         self._paused = None
 
@@ -917,6 +917,9 @@ class Process(StateMachine, persistence.Savable, metaclass=ProcessStateMachineMe
     def on_terminated(self) -> None:
         """Call when a terminal state is reached."""
         super().on_terminated()
+        if self._paused is not None and not self._paused.done():
+            # Release a ``step`` that is blocked until the process is played again
+            self._paused.set_result(False)
         self.close()
 
     @super_check
@@ -1324,8 +1327,11 @@ class Process(StateMachine, persistence.Savable, metaclass=ProcessStateMachineMe
         """
         assert not self.has_terminated(), 'Cannot step, already terminated'
 
-        if self.paused and self._paused is not None:
+        while self.paused and self._paused is not None:
             await self._paused
+            if self.has_terminated():
+                # Terminated (e.g. killed) while paused: there is nothing left to step
+                return
 
         try:
             self._stepping = True
